@@ -105,13 +105,11 @@ theorem i64_le_u_ok : RelRow64 .le_u i64_le_u := by
   x64_simp
   x64_finish
 
-theorem i64_popcnt_illformed : Illformed i64_popcnt := by
+theorem i64_popcnt_ok : UnRow64 .popcnt i64_popcnt := by
   intro s
   obtain ⟨rax, rcx, rdx, rbx, rsi, rdi, r8, r9, r10, r11, r12, r13, r14, r15, flags, slots, stk⟩ := s
   unfold i64_popcnt
   x64_simp
-
-/-- the full statement for `i64.popcnt` is false of the emitted template (it is not even encodable: GNU as rejects it) -/
-theorem i64_popcnt_full_false : ¬ UnRow64 .popcnt i64_popcnt := illformed_not_un64 _ i64_popcnt_illformed
+  x64_finish
 
 end WaVerif.C02.Rows
